@@ -613,8 +613,8 @@ func (w *world) finish(prod []chan struct{}, stoppers []chan struct{}, bound tim
 // ---------------------------------------------------------------------------------------------
 // scenarios
 
-const stressBound = 6 * time.Second
-const raceBound = 3 * time.Second
+const stressBound = 10 * time.Second
+const raceBound = 6 * time.Second
 
 func run(c cfg) []string {
 	ev, _ := run2(c)
@@ -1338,19 +1338,36 @@ func emit(r *hx.Run, sub uint64, res result) (failed bool) {
 	return end != ""
 }
 
-// unexplained counts oracle failures that are not the recorded window race; once there are plenty of them
-// the remaining cases are skipped (a broken writer makes every case wait for its time-out bound).
-var unexplained atomic.Int64
+// Failure budget: a broken writer makes every affected case wait for its (generous) time-out bound, so once there
+// are plenty of failing cases the remaining ones are skipped: after `hangBudget` cases with a call that never
+// returned (each of them costs a full bound) or `failBudget` failing cases of any kind.  On the unchanged tree
+// nothing fails, so the bounds themselves can stay generous.
+var failedCases, hungCases atomic.Int64
 
-const unexplainedBudget = 12
+const hangBudget = 6
+const failBudget = 40
+
+func budgetSpent() bool {
+	return hungCases.Load() >= hangBudget || failedCases.Load() >= failBudget
+}
+
+// phaseMs: wall time per scenario kind (milliseconds), written to stats.json (`extra.phase_ms`)
+var phaseMs = map[string]int64{}
 
 func runBatch(r *hx.Run, cs []cfg, par int) {
+	if len(cs) > 0 {
+		t0 := time.Now()
+		defer func() {
+			phaseMs[cs[0].kind] += time.Since(t0).Milliseconds()
+			r.Extra["phase_ms"] = phaseMs
+		}()
+	}
 	res := make([]result, len(cs))
 	ran := make([]bool, len(cs))
 	sem := make(chan struct{}, par)
 	var wg sync.WaitGroup
 	for i, c := range cs {
-		if unexplained.Load() >= unexplainedBudget {
+		if budgetSpent() {
 			r.Count("skipped-after-many-failures")
 
 			continue
@@ -1363,8 +1380,11 @@ func runBatch(r *hx.Run, cs []cfg, par int) {
 			ev, plog := run2(c)
 			res[i] = result{c, ev, plog}
 			ran[i] = true
-			if _, end := oracle(res[i].ev); end != "" && !windowRace(res[i].ev) {
-				unexplained.Add(1)
+			if _, end := oracle(res[i].ev); end != "" {
+				failedCases.Add(1)
+				if end == "blocked-forever" {
+					hungCases.Add(1)
+				}
 			}
 		}(i, c)
 	}
